@@ -1,8 +1,10 @@
 (** C17 correspondence: re-run the scheduler model on the histories the harness drove through the
-    real scheduler keeper / msg server / wasm bindings + EVM keeper + consensus queue, and compare
-    the projected observables step by step: outcome class, the messages newly found in the
-    turnstone queues (valset update | logic call with chain, turnstone id, contract, abi, payload,
-    sender, contract address, MEV flag, assignee), and at the end the job store. *)
+    real scheduler keeper / msg server (behind ValidateBasic and the ante decorator) / wasm bindings
+    (behind the libwasm router) + EVM keeper + consensus queue, and compare the projected
+    observables step by step: outcome class, the LIVE content of the turnstone queues (which
+    messages disappeared, which are new: valset update with chain, turnstone id, valset id | logic
+    call with chain, turnstone id, contract, abi, payload, sender, contract address, MEV flag,
+    assignee), the ids in the job store, and at the end the whole job store. *)
 From Coq Require Import List ZArith Bool Ascii String.
 From Paloma Require Import Base.Corr Scheduler.Jobs.
 Import ListNotations.
@@ -44,7 +46,7 @@ Definition call_eqb (a b : call) : bool :=
 
 Definition qmsg_eqb (a b : qmsg) : bool :=
   match a, b with
-  | QValset x, QValset y => bytes_eqb x y
+  | QValset x t v, QValset y u w => bytes_eqb x y && bytes_eqb t u && (v =? w)
   | QCall x, QCall y => call_eqb x y
   | _, _ => false
   end.
@@ -53,20 +55,33 @@ Inductive case :=
 | Hist (chs : list (bytes * bytes))
        (ptab : list (bytes * option bytes))
        (dtab : list (bytes * option (bytes * bytes)))
-       (steps : list (op * result * list qmsg))
+       (steps : list (op * result * list Z * list qmsg * list bytes))
        (final : list job)
 | Inject (sender payload : bytes) (out : option bytes)      (* injectSenderIntoPayload *)
 | FromHex (s : bytes) (lenient : bytes) (strict : option bytes) (* common.FromHex / validateHexPayload *)
 | Wrap (raw wrapped : bytes).                               (* the binding's {"hexPayload":"…"} *)
 
+(** the queue without the messages at the given (0-based, increasing) positions *)
+Fixpoint remove_at (i : Z) (rem : list Z) (q : list qmsg) : list qmsg :=
+  match q with
+  | [] => []
+  | m :: r =>
+      match rem with
+      | k :: rem' => if k =? i then remove_at (i + 1) rem' r else m :: remove_at (i + 1) rem r
+      | [] => q
+      end
+  end.
+
+(** one step = (request with the environment's answers, observed outcome, positions of the queue
+    messages that disappeared, new queue messages in id order, ids in the job store afterwards) *)
 Fixpoint replay (dd : bytes -> option (bytes * bytes)) (dp : bytes -> option bytes)
-         (s : state) (steps : list (op * result * list qmsg)) : option state :=
+         (s : state) (steps : list (op * result * list Z * list qmsg * list bytes)) : option state :=
   match steps with
   | [] => Some s
-  | (o, r, new) :: rest =>
+  | (o, r, rem, new, ids) :: rest =>
       let (s', r') := step_res dd dp s o in
-      if result_eqb r r' && list_eqb qmsg_eqb (skipn (List.length (queue s)) (queue s')) new
-         && list_eqb job_eqb (firstn (List.length (jobs s)) (jobs s')) (jobs s)
+      if result_eqb r r' && list_eqb qmsg_eqb (queue s') (remove_at 0 rem (queue s) ++ new)
+         && list_eqb bytes_eqb (map j_id (jobs s')) ids
       then replay dd dp s' rest else None
   end.
 
